@@ -320,6 +320,23 @@ func describeExpr(f *FuncInfo, e ast.Expr, depth int) string {
 				return "var"
 			}
 			defs := defsOfVarWithIndex(f, o)
+			if describeUsePos.IsValid() && len(defs) > 1 {
+				// position-sensitive mode: the last definition textually before the use (straight-line reaching definition)
+				var last *varDef
+				for i := range defs {
+					if defs[i].pos <= describeUsePos && (last == nil || defs[i].pos > last.pos) {
+						last = &defs[i]
+					}
+				}
+				if last != nil {
+					// uses inside the defining statement resolve to definitions before it
+					old := describeUsePos
+					describeUsePos = last.start
+					r := last.describe(f, depth+1)
+					describeUsePos = old
+					return r
+				}
+			}
 			if len(defs) == 1 {
 				return defs[0].describe(f, depth+1)
 			}
@@ -406,6 +423,20 @@ func describeExpr(f *FuncInfo, e ast.Expr, depth int) string {
 	return "expr"
 }
 
+// describeUsePos, when valid, makes describeExpr resolve a local variable with several definitions to the last
+// definition textually before that position (see describeExprAt).
+var describeUsePos token.Pos
+
+// describeExprAt is describeExpr for an expression used at its own position: reassigned locals (key := a; ...;
+// key = b) resolve to the definition in force at the use, assuming the definitions and the use are in straight-line
+// order (callers use it for straight-line builder code only).
+func describeExprAt(f *FuncInfo, e ast.Expr) string {
+	old := describeUsePos
+	describeUsePos = e.Pos()
+	defer func() { describeUsePos = old }()
+	return describeExpr(f, e, 0)
+}
+
 func recvOf(f *FuncInfo) *types.Var {
 	sig, _ := f.Obj.Type().(*types.Signature)
 	if sig == nil {
@@ -415,6 +446,8 @@ func recvOf(f *FuncInfo) *types.Var {
 }
 
 type varDef struct {
+	start token.Pos // start of the defining statement
+	pos   token.Pos // end of the defining statement (range: position of the range statement)
 	rhs   ast.Expr // nil for range / unknown
 	index int      // index into a tuple-valued rhs, -1 when rhs is the value itself
 	rng   ast.Expr // range expression when defined by range
@@ -450,13 +483,13 @@ func defsOfVarWithIndex(f *FuncInfo, v *types.Var) []varDef {
 					continue
 				}
 				if s.Tok != token.ASSIGN && s.Tok != token.DEFINE {
-					out = append(out, varDef{index: -1}) // op-assign
+					out = append(out, varDef{start: s.Pos(), pos: s.End(), index: -1}) // op-assign
 					continue
 				}
 				if len(s.Lhs) == len(s.Rhs) {
-					out = append(out, varDef{rhs: s.Rhs[i], index: -1})
+					out = append(out, varDef{start: s.Pos(), pos: s.End(), rhs: s.Rhs[i], index: -1})
 				} else if len(s.Rhs) == 1 {
-					out = append(out, varDef{rhs: s.Rhs[0], index: i})
+					out = append(out, varDef{start: s.Pos(), pos: s.End(), rhs: s.Rhs[0], index: i})
 				}
 			}
 		case *ast.ValueSpec:
@@ -465,22 +498,22 @@ func defsOfVarWithIndex(f *FuncInfo, v *types.Var) []varDef {
 					continue
 				}
 				if len(s.Values) == len(s.Names) {
-					out = append(out, varDef{rhs: s.Values[i], index: -1})
+					out = append(out, varDef{start: s.Pos(), pos: s.End(), rhs: s.Values[i], index: -1})
 				} else if len(s.Values) == 1 {
-					out = append(out, varDef{rhs: s.Values[0], index: i})
+					out = append(out, varDef{start: s.Pos(), pos: s.End(), rhs: s.Values[0], index: i})
 				}
 				// no initial value: zero value, not a def of interest
 			}
 		case *ast.RangeStmt:
 			if id, ok := s.Key.(*ast.Ident); ok && (info.Defs[id] == v || info.Uses[id] == v) {
-				out = append(out, varDef{rng: s.X, isKey: true})
+				out = append(out, varDef{start: s.Pos(), pos: s.Pos()+1, rng: s.X, isKey: true})
 			}
 			if id, ok := s.Value.(*ast.Ident); ok && (info.Defs[id] == v || info.Uses[id] == v) {
-				out = append(out, varDef{rng: s.X})
+				out = append(out, varDef{start: s.Pos(), pos: s.Pos()+1, rng: s.X})
 			}
 		case *ast.IncDecStmt:
 			if id, ok := ast.Unparen(s.X).(*ast.Ident); ok && info.Uses[id] == v {
-				out = append(out, varDef{index: -1})
+				out = append(out, varDef{start: s.Pos(), pos: s.End(), index: -1})
 			}
 		}
 		return true
